@@ -7,6 +7,7 @@ import (
 	"os"
 	"path"
 	"path/filepath"
+	"strconv"
 	"strings"
 )
 
@@ -133,11 +134,22 @@ func (session *HermesSession) Run(workingDir string, args []string, logID string
 		PROG := driConfig.VirtualDateFertilizerPrediction
 		DAYOUT := driConfig.AnnualOutputDate + driConfig.EndDate[4:]
 		OUTDAY, OUTY := g.Datum(DAYOUT)
-		if OUTDAY > 365 {
-			OUTDAY = 365
-		}
 		if OUTY >= g.ENDE {
 			g.ENDE = OUTY + 1
+		}
+		// the annual output date falls on another day of the year in leap years than in common years:
+		// its day number is taken per year (it used to be the end year's number for every year)
+		outdayYear := 0
+		annualOutDay := func(year int) int {
+			if year != outdayYear {
+				yearText := strconv.Itoa(year)
+				if len(driConfig.EndDate) < 8 {
+					yearText = fmt.Sprintf("%02d", year%100)
+				}
+				OUTDAY, _ = g.Datum(driConfig.AnnualOutputDate + yearText)
+				outdayYear = year
+			}
+			return OUTDAY
 		}
 
 		PR = SetPrognoseDate(PROG, &g)
@@ -735,7 +747,7 @@ func (session *HermesSession) Run(workingDir string, args []string, logID string
 
 			// *********************** JAHRESAUSGABE ***************************
 			// *********************** ANNUAL OUTPUT ***************************
-			if g.TAG.Index+1 == OUTDAY {
+			if g.TAG.Index+1 == annualOutDay(1900+g.J) {
 				g.AUS[JZ] = g.OUTSUM
 				g.SIC[JZ] = (g.SICKER - math.Abs(g.CAPSUM))
 				g.AUFNA[JZ] = g.AUFNASUM
